@@ -341,7 +341,7 @@ def render(design, rng, quirks=(), style=None):
                   'cname': None, 'attr': [], 'param': []}] + insts
     conns = list(design['conns'])
     if 'conn_twice' in q and conns:
-        conns.append((conns[0][0], ('conn_twice_extra', None)))
+        conns.append((conns[0][0], conn_twice_extra(design)))
     if 'conn_early' in q:
         for (a, b) in conns:
             emit(['.conn', net_tok(a), net_tok(b)], allow_cont=False)
@@ -369,6 +369,15 @@ def render(design, rng, quirks=(), style=None):
     return text, st
 
 
+def conn_twice_extra(design):
+    """a net with at least one pin (a top-level port bit) that no .conn of the design names"""
+    used = set(n[0] for c in design['conns'] for n in c)
+    for (p, dr, w) in design['ports']:
+        if p not in used:
+            return (p, None if w is None else 0)
+    return ('conn_twice_extra', None)
+
+
 def effective_design(design, quirks):
     """the design the quirky rendering still denotes (the quirks that add statements)"""
     q = set(quirks)
@@ -378,7 +387,7 @@ def effective_design(design, quirks):
                       {'kind': 'latch', 'toks': [('lm_q', None), ('lm_q2', None), ('re', None), ('clk', None), ('0', None)],
                        'cname': None, 'attr': [], 'param': []}] + list(design['insts'])
     if 'conn_twice' in q and design['conns']:
-        d['conns'] = list(design['conns']) + [(design['conns'][0][0], ('conn_twice_extra', None))]
+        d['conns'] = list(design['conns']) + [(design['conns'][0][0], conn_twice_extra(design))]
     if 'unused_prim_first' in q:
         d['prims'] = dict(design['prims'])
         d['prims']['UNUSED_BB'] = {'ports': [('a', 'in', None), ('b', 'out', None)], 'declared': True}
